@@ -58,12 +58,15 @@ _BASE = {}
 
 
 def _viol(prop, overlay):
+    """what the check would print for this tree: its unlisted violations (known findings are matched exactly as report.finish does) and
+    analysis errors (including rules below their floor)"""
     from sa import check
     from sa.model import AnalysisError
+    from sa.report import verdict
     try:
         run = check.run_property(prop, "quick", overlay=overlay)
-        return {(o.rule, o.function, o.construct): o.fact for o in run.obligations if not o.ok}, \
-            ("ANALYSIS-ERROR " + "; ".join(run.analysis_errors)[:300]) if run.analysis_errors else None
+        v, errs = verdict(run)
+        return v, ("ANALYSIS-ERROR " + "; ".join(errs)[:300]) if errs else None
     except AnalysisError as e:
         return {}, f"ANALYSIS-ERROR {e}"
     except Exception as e:  # noqa
